@@ -177,3 +177,32 @@ Definition pending_after (p : prog) (k : nat) (tr : list label) : list nat :=
 (** an idle round: a history segment from an entry to the matching return *)
 Definition no_idle_boundary (tr : list label) : Prop :=
   ~ In LIdleEnter tr /\ ~ In LIdleExit tr.
+
+(** the field contexts handed to batch functions, and every promise that received a result *)
+Definition flushed (tr : list label) : list nat := flat_map snd (flush_calls tr).
+Definition deliveries (tr : list label) : list nat :=
+  flat_map (fun l => match l with LRecv w => [w] | LFlush _ its => its | _ => [] end) tr.
+
+(** the calls of batch resolver [k] in a history *)
+Definition calls_of (k : nat) (tr : list label) : list (nat * list nat) :=
+  filter (fun c => Nat.eqb (fst c) k) (flush_calls tr).
+
+(** DELIVERY, declaratively: [produced p tr w r] = "r is the result produced for promise w in
+    history tr".  Go: what its function returned.  Batch: the entry, at the position at which w's
+    field context was passed, of the answer of the batch function to the call it was passed in.
+    chain / join: its function applied to the values produced for all its inner promises, or the
+    first error produced for one of them (those before it having produced values). *)
+Inductive produced (p : prog) (tr : list label) : nat -> result -> Prop :=
+| pr_go w it :
+    lookup p w = Some it -> it_kind it = KGo -> produced p tr w (it_res it)
+| pr_batch w k its i r :
+    In (LFlush k its) tr -> nth_error its i = Some w -> nth_error (p_bfun p k its) i = Some r ->
+    produced p tr w r
+| pr_chain_ok c it inn vals :
+    lookup p c = Some it -> it_kind it = KChain inn ->
+    Forall2 (fun q v => produced p tr q (ROk v)) inn vals ->
+    produced p tr c (p_cfun p c vals)
+| pr_chain_err c it inn pre q suf vals e :
+    lookup p c = Some it -> it_kind it = KChain inn -> inn = pre ++ q :: suf ->
+    Forall2 (fun q v => produced p tr q (ROk v)) pre vals -> produced p tr q (RErr e) ->
+    produced p tr c (RErr e).
